@@ -146,6 +146,15 @@ class Builder:
             return G("lit", bytes="".join("%02x" % b for b in t[1]), w=len(t[1]))
         if k == "const" and isinstance(t[1], int):
             return G("lit", bytes="%02x" % t[1], w=1)
+        if k == "cdef":
+            # a named byte-string constant used as a literal parser: its evaluated bytes
+            try:
+                v = self.prog.const_lit(t[1])
+                if isinstance(v, (bytes, bytearray, list)) and all(isinstance(b_, int) for b_ in v):
+                    return G("lit", bytes="".join("%02x" % b_ for b_ in v), w=len(v))
+            except Exception:
+                pass
+            return G("unknown", name="cdef:" + t[1])
         if k == "aggr" and t[1] == "tuple":
             return G("seq", [self.parser_grammar(an, sy, o, captured, depth + 1) for o in t[2]])
         if k == "aggr" and t[1].startswith("closure:"):
